@@ -3,7 +3,10 @@
 import json, os
 V = os.path.dirname(os.path.dirname(os.path.abspath(__file__)))
 import glob
-props = {os.path.basename(f)[:-5]: json.load(open(f)) for f in glob.glob(os.path.join(V, "tools", "props", "C*.json"))}
+import subprocess
+tracked = set(subprocess.run(["git", "-C", V, "ls-files", "tools/props"], capture_output=True, text=True).stdout.split())
+props = {os.path.basename(f)[:-5]: json.load(open(f)) for f in glob.glob(os.path.join(V, "tools", "props", "C*.json"))
+         if os.path.relpath(f, V) in tracked}
 ids = [json.loads(l)["id"] for l in open(os.path.join(V, "properties.jsonl"))]
 checks, na = [], []
 for pid in ids:
